@@ -550,6 +550,10 @@ Definition apply_votes (kind : N) (s : kstate) (vid : N) (h r : N) (ups : pmap) 
 (** future votes: handleFuture*Proofs + addFuture* *)
 Definition coll_of (e : rentry) (kind : N) : option sparse_coll := if kind =? KPrevote then re_pv e else re_pc e.
 
+(** an entry without signatures carries nothing: the future-vote path and the replay path skip it *)
+Definition signed_entries (l : list (bytes * list ssig)) : list (bytes * list ssig) :=
+  filter (fun e => match snd e with [] => false | _ => true end) l.
+
 Definition handle_future_votes (kind : N) (s : kstate) (m : vmsg) : res (kstate * N) :=
   (* only a later round of the voting height has a known validator set *)
   let keys_opt := if vm_h m =? v_h (k_vot s) then Some (vs_keys (v_vals (k_vot s))) else None in
@@ -571,7 +575,7 @@ Definition handle_future_votes (kind : N) (s : kstate) (m : vmsg) : res (kstate 
           if bytes_eqb spkh (vm_pkh m) || negb (match pm_get fm (fst x) with Some _ => true | None => false end) then
             let '(p', av, i) := merge_sparse kind (vm_h m) (vm_r m) (fst x) keys base (snd x) in
             (pm_set fm (fst x) p', allv && av, inc || i)
-          else (fm, false, inc)) (vm_proofs m) (full, true, false) in
+          else (fm, false, inc)) (signed_entries (vm_proofs m)) (full, true, false) in
       if negb allv then Ok (s, HandleVoteProofsBadSignature)
       else if negb inc then Ok (s, HandleVoteProofsNoNewSignatures)
       else
@@ -873,49 +877,52 @@ Definition handle_replay (s0 : kstate) (hd : hdr) (cp : cproof) : res (kstate * 
   if negb (hd_height hd =? v_h (k_vot s0)) then Ok (s0, 1)
   else if cp_round cp <? v_r (k_vot s0) then Panic "handleReplayedHeader: TODO: handle replay for earlier round"
   else
+  (* [s]: the mirror moved to the replayed round. The header and its proof are validated first (against the
+     precommits already held for that round, which are those of the jumped voting view); a replay that is
+     rejected leaves the mirror as it was ([s0]), only a valid one is applied to [s]. *)
   let s := jump_until (N.to_nat (cp_round cp - v_r (k_vot s0))) s0 (cp_round cp) in
   let h := hd_height hd in let r := cp_round cp in
   (* the Go loop ends exactly at the replayed round and a round jump keeps the height; the model's
      fuel is enough for that in every reachable state (Proofs/MirrorChain.v: replay_reaches_round) *)
   if negb ((v_r (k_vot s) =? r) && (v_h (k_vot s) =? h)) then Panic "model: out of fuel in the replay round jump" else
-  if negb (hd_ok hd) then Ok (s, 2)
-  else if negb (h =? k_init_h s) && negb (bytes_eqb (hd_prev hd) (chdr_hash s)) then Ok (s, 2)
-  else if negb (valset_equal (hd_vals hd) (v_vals (k_vot s)) && vs_ok (hd_vals hd)) then Ok (s, 2)
-  else if negb (vs_ok (hd_next hd)) then Ok (s, 2)
+  if negb (hd_ok hd) then Ok (s0, 2)
+  else if negb (h =? k_init_h s) && negb (bytes_eqb (hd_prev hd) (chdr_hash s)) then Ok (s0, 2)
+  else if negb (valset_equal (hd_vals hd) (v_vals (k_vot s)) && vs_ok (hd_vals hd)) then Ok (s0, 2)
+  else if negb (vs_ok (hd_next hd)) then Ok (s0, 2)
   else
   let '(temp, allv) :=
     fold_left (fun acc e =>
       let '(tm, av) := acc in
       let base := match pm_get (v_pc (k_vot s)) (fst e) with Some p => p | None => [] end in
       let '(p', a, _) := merge_sparse KPrecommit h r (fst e) (vs_keys (hd_vals hd)) base (snd e) in
-      (pm_set tm (fst e) p', av && a)) (cp_proofs cp) ([], true) in
-  if negb allv then Ok (s, 2) else
-  bind
-    (if existsb (fun p => bytes_eqb (hd_hash (ph_hdr p)) (hd_hash hd)) (v_phs (k_vot s)) then Ok s
-     else if existsb (fun x => let '(h', _, e) := x in
-                               (h' =? h) && existsb (fun p => bytes_eqb (hd_hash (ph_hdr p)) (hd_hash hd)) (re_phs e))
-                     (st_rounds s)
-     then
-       (* the round store already holds the header as a proposed header of another round of this height and
-          refuses it as a replayed header: it is filed as a (keyless) proposed header of the replayed round *)
-       let s1 := log_w (set_rounds s (rs_save_ph (st_rounds s) (fake_ph hd r))) (WPH (fake_ph hd r)) in
-       Ok (set_vot s1 (with_phs (k_vot s1) (v_phs (k_vot s1) ++ [fake_ph hd r])))
-     else
-       let s1 := log_w (set_replayed s (st_replayed s ++ [hd])) (WReplay hd) in
-       Ok (set_vot s1 (with_phs (k_vot s1) (v_phs (k_vot s1) ++ [fake_ph hd r])))) (fun s1 =>
+      (pm_set tm (fst e) p', av && a)) (signed_entries (cp_proofs cp)) ([], true) in
+  if negb allv then Ok (s0, 2) else
   match pm_get temp (hd_hash hd) with
-  | None => Ok (s1, 2)
+  | None => Ok (s0, 2)
   | Some hp =>
-      bind (byz_majority (sm_avail (v_sum (k_vot s1)))) (fun maj =>
-      if proof_power (vs_pows (hd_vals hd)) hp <? maj then Ok (s1, 2) else
+      bind (byz_majority (sm_avail (v_sum (k_vot s)))) (fun maj =>
+      if proof_power (vs_pows (hd_vals hd)) hp <? maj then Ok (s0, 2) else
+      bind
+        (if existsb (fun p => bytes_eqb (hd_hash (ph_hdr p)) (hd_hash hd)) (v_phs (k_vot s)) then Ok s
+         else if existsb (fun x => let '(h', _, e) := x in
+                                   (h' =? h) && existsb (fun p => bytes_eqb (hd_hash (ph_hdr p)) (hd_hash hd)) (re_phs e))
+                         (st_rounds s)
+         then
+           (* the round store already holds the header as a proposed header of another round of this height and
+              refuses it as a replayed header: it is filed as a (keyless) proposed header of the replayed round *)
+           let s1 := log_w (set_rounds s (rs_save_ph (st_rounds s) (fake_ph hd r))) (WPH (fake_ph hd r)) in
+           Ok (set_vot s1 (with_phs (k_vot s1) (v_phs (k_vot s1) ++ [fake_ph hd r])))
+         else
+           let s1 := log_w (set_replayed s (st_replayed s ++ [hd])) (WReplay hd) in
+           Ok (set_vot s1 (with_phs (k_vot s1) (v_phs (k_vot s1) ++ [fake_ph hd r])))) (fun s1 =>
       let v := k_vot s1 in
       let pc' := fold_left (fun m e => pm_set m (fst e) (snd e)) temp (v_pc v) in
       let v1 := with_pc v pc' in
       let v2 := with_sum v1 (sum_set_precommits (v_sum v1) (vs_pows (v_vals v1)) pc') in
       let coll := map_to_sparse (vs_pkh (v_vals v2)) pc' in
       let s2 := log_w (set_rounds (set_vot s1 v2) (rs_overwrite_pc (st_rounds s1) h r coll)) (WPC h r coll) in
-      bind (check_voting_precommit_shift s2) (fun s3 => Ok (s3, 0)))
-  end).
+      bind (check_voting_precommit_shift s2) (fun s3 => Ok (s3, 0))))
+  end.
 
 (** * Operations and runs *)
 Inductive op :=
